@@ -95,7 +95,7 @@ def cases(seed, tier):
     out = []
     for k in range(n):
         rng = trees.rng_for(seed, PID, k)
-        kind = ["network", "cell", "network", "cell", "branch"][k % 5]
+        kind = ["network", "cell", "network", "cell", "branch"][k % 5] if k % 12 else "network"
         world = c11.make_world(rng, kind)
         world["channels"].setdefault("HH", sorted(set(int(x) for x in rng.integers(0, len(world["arrays"]["comp"]), 4))))
         routes = (k % 6 == 0) and len(world["arrays"]["comp"]) <= 14
@@ -115,6 +115,11 @@ def cases(seed, tier):
             key = str(rng.choice(keys))
             calls.append({"ops": ops, "key": key, "vseed": int(rng.integers(0, 2**31)),
                           "init": ["list", "list", "float", "none"][int(rng.integers(0, 4))]})
+        if routes and kind == "network" and world["syn"] and k % 12 == 0:
+            # geometry of a POSTSYNAPTIC compartment supplied at integrate time: the synaptic current density must follow it
+            post = int(world["syn"][0][1])
+            calls = [{"ops": [{"op": "select", "nodes": [post], "edges": None}], "key": str(rng.choice(["radius", "length"])),
+                      "vseed": int(rng.integers(0, 2**31)), "init": "list"}]
         out.append({"world": world, "calls": calls, "routes": bool(routes), "scalar": float(rng.uniform(0.2, 0.9))})
     return out
 
@@ -308,6 +313,9 @@ def _routes(case, rec, m, world):
     if not groups:
         return
     n = len(m.nodes)
+    for col in m.edges.columns:
+        if col.endswith(("_gS", "_gC")):
+            m.edges[col] = m.edges[col] * 50.0
     m.scope("global").comp(0).stimulate(jnp.asarray(np.full(6, 0.05)), verbose=False)
     m.record("v", verbose=False)
     kind = world["struct"]["kind"]
